@@ -108,12 +108,12 @@ theorem gok_of_shape {grp : List ℕ} {gi : GInput} (hne : grp ≠ [])
 /-- `perform_check` on a valid configuration returns one entry per input, none missing -/
 theorem performCheck_full {α : Type} {cfg : LCfg} {sub : ℕ → α → GInput → M SubRes} {answers : List α} {student : List String} {o : LOut}
     (hne : student ≠ [])
-    (hgroup : cfg.grouping = [] ∨ ∃ gs, createGroupingMap cfg.grouping = some gs ∧ answers.length = gs.length)
+    (hgroup : cfg.grouping = [] ∨ ∃ gs, createGroupingMap cfg.grouping = some gs)
     (hsub : ∀ k a, (if cfg.ordered then answers[k]? = some a else (k = 0 ∧ a ∈ answers)) → ∀ g r, GOK g → sub k a g = .ok r → ShapeOf g r)
     (h : performCheck cfg sub answers student = .ok o) : Full o student.length := by
   obtain ⟨hlen, il, ho, hil⟩ := C05.performCheck_inv h
   have hspos : 0 < student.length := List.length_pos_iff.mpr hne
-  rcases hgroup with hg0 | ⟨gs, hmap, hans⟩
+  rcases hgroup with hg0 | ⟨gs, hmap⟩
   · -- no grouping
     simp only [hg0, List.isEmpty_nil, ↓reduceIte] at hlen hil ho
     rw [groupify_none] at hil
@@ -156,6 +156,9 @@ theorem performCheck_full {α : Type} {cfg : LCfg} {sub : ℕ → α → GInput 
       cases hc : cfg.grouping with
       | nil => rw [hc] at hmap; simp [createGroupingMap] at hmap
       | cons _ _ => rfl
+    have hans : answers.length = gs.length := by
+      have := C05.performCheck_groups_match hgne h
+      simpa [groupsMatch, hmap] using this
     simp only [hgne, Bool.false_eq_true, ↓reduceIte, hmap] at hlen hil ho
     have hv := (createGroupingMap_valid hmap).1
     rw [hlen] at hv
@@ -208,7 +211,7 @@ theorem full_zero {o : LOut} {n : ℕ} (h : Full o n) :
 /-- `ListGrader.check` on a valid configuration returns one entry per input, none missing -/
 theorem listCheck_full {α : Type} {cfg : LCfg} {sub : ℕ → α → GInput → M SubRes} {answers : List (List α)} {student : List String} {o : LOut}
     (hne : student ≠ [])
-    (hcfg : ∀ al ∈ answers, (cfg.grouping = [] ∨ ∃ gs, createGroupingMap cfg.grouping = some gs ∧ al.length = gs.length) ∧
+    (hcfg : ∀ al ∈ answers, (cfg.grouping = [] ∨ ∃ gs, createGroupingMap cfg.grouping = some gs) ∧
       ∀ k a, (if cfg.ordered then al[k]? = some a else (k = 0 ∧ a ∈ al)) → ∀ g r, GOK g → sub k a g = .ok r → ShapeOf g r)
     (h : listCheck cfg sub answers student = .ok o) : Full o student.length := by
   unfold listCheck at h
@@ -240,11 +243,11 @@ theorem runAt_eq : ∀ (subs : List STree) (j : ℕ), runAt subs j = match subs[
   | s :: rest, j + 1 => by simp only [runAt, List.getElem?_cons_succ]; exact runAt_eq rest j
 
 mutual
-/-- validly configured list grader together with its answers: accepted grouping with one answer per group; the answers of
-    nested graders are again valid -/
+/-- validly configured list grader together with its answers: an accepted grouping (or none); the answers handed to nested
+    graders are again for validly configured graders -/
 inductive ListOK : LTree → List (List UAny) → Prop
   | mk (cfg : LCfg) (subs : List STree) (answers : List (List UAny)) :
-      (∀ al ∈ answers, cfg.grouping = [] ∨ ∃ gs, createGroupingMap cfg.grouping = some gs ∧ al.length = gs.length) →
+      (cfg.grouping = [] ∨ ∃ gs, createGroupingMap cfg.grouping = some gs) →
       (∀ al ∈ answers, ∀ k a, (if cfg.ordered then al[k]? = some a else (k = 0 ∧ a ∈ al)) → ∀ s, subFor subs k = some s → SubOK s a) →
       ListOK (.list cfg subs) answers
 inductive SubOK : STree → UAny → Prop
@@ -263,7 +266,7 @@ theorem LTree.check_full : ∀ (t : LTree) (answers : List (List UAny)) (student
     | mk _ _ _ hgrp hsubs =>
       apply listCheck_full hne _ h
       intro al hal
-      refine ⟨hgrp al hal, ?_⟩
+      refine ⟨hgrp, ?_⟩
       intro k a hcond g r hg hrun
       have hsf := hsubs al hal k a hcond
       unfold subFor at hsf
